@@ -9,4 +9,5 @@ ProgS == [f \in FilesS |-> CASE f \in {"f1", "f2"} -> <<<<"use", "s1">>, <<"use"
                              [] f = "f3" -> <<<<"reg", "s1">>>>
                              [] OTHER -> <<>>]
 NamePrefixS == {<<"repo", "repo-b">>}
+InsideS == {}
 =============================================================================
